@@ -523,6 +523,8 @@ class Fn:
             x = self.term_of_operand(rv["op"], b, depth)
             if "PointerCoercion" in rv["kind"]:
                 return x
+            if getattr(self, "fold_casts", False) and x[0] == "c" and isinstance(x[1], int) and rv["ty"] in _INT_BITS:
+                return ("c", x[1] & ((1 << _INT_BITS[rv["ty"]]) - 1), None)
             return ("cast", rv["ty"], x, rv.get("src"))
         if k in ("Ref", "RawPtr"):
             return ("ref", self.term_of_place(rv["p"], depth))
@@ -584,6 +586,9 @@ class Fn:
         else:
             sp = blk["stmts"][i].get("sp") or blk["term"]["sp"]
         return "%s:%s" % (sp["file"], sp["l0"])
+
+
+_INT_BITS = {"u8": 8, "u16": 16, "u32": 32, "u64": 64, "usize": 64}
 
 
 def fold_bin(t):
